@@ -54,7 +54,7 @@ PROPS = {
     'C04': dict(extra=['conc_explore'], modules=['Hagall.Props.C04'], profiles=['mixed', 'comp', 'module', 'malformed', 'latency'], n=(240, 4000),
                 focus=None,
                 topics=slice_of(ALL_TOPICS, kinds=['outcome'], answer_only=True, outs=ANSWERS)),
-    'C05': dict(tools=['drive', 'extract', 'wire-race'], extra=['race_harness', 'conc_explore'], modules=['Hagall.Props.C05'], profiles=['pose', 'mixed', 'module'], n=(240, 4000),
+    'C05': dict(tools=['idstress', 'drive', 'extract', 'wire-race'], extra=['id_stress', 'race_harness', 'conc_explore'], modules=['Hagall.Props.C05'], profiles=['pose', 'mixed', 'module'], n=(240, 4000),
                 focus={'entityDelete', 'updatePose', 'assetAdd'},
                 topics=slice_of(['entityDelete', 'updatePose', 'assetAdd'],
                                 outs={'error', 'entityDeleteResp', 'entityDeleteBcast', 'poseBcast', 'assetAddResp', 'assetAddBcast'})),
@@ -65,7 +65,7 @@ PROPS = {
     'C07': dict(modules=['Hagall.Props.C07', 'Hagall.Props.C07Conc'], profiles=['join', 'mixed'], n=(240, 4000), focus={'join'}, tools=['wire-race', 'drive', 'extract', 'wire'], extra=['race_harness', 'wire_harness', 'conc_explore'],
                 topics=slice_of(['join', 'disconnect'], kinds=['state', 'gauge'], outs={'joinResp', 'error'})),
     'C10': dict(modules=['Hagall.Props.C10', 'Hagall.Props.C07Conc'], profiles=['join', 'mixed', 'comp', 'module'], n=(240, 4000), focus={'join', 'entityAdd', 'typeAdd', 'assetAdd'},
-                tools=['wire-race', 'drive', 'extract', 'wire'], extra=['race_harness', 'wire_harness', 'conc_explore'],
+                tools=['idstress', 'wire-race', 'drive', 'extract', 'wire'], extra=['id_stress', 'race_harness', 'wire_harness', 'conc_explore'],
                 topics=slice_of(['join', 'entityAdd', 'typeAdd', 'typeGetName', 'typeGetId', 'assetAdd'], kinds=['state'], answer_only=True,
                                 outs={'joinResp', 'entityAddResp', 'typeAddResp', 'typeNameResp', 'typeIdResp', 'assetAddResp'})),
     'C12': dict(tools=['drive', 'extract', 'wire-race'], extra=['race_harness', 'conc_explore'], modules=['Hagall.Props.C12'], profiles=['comp', 'mixed'], n=(240, 4000), focus=set(COMP) | {'entityDelete'},
